@@ -257,3 +257,30 @@ package j5convert
 //@   ensures options: result1 == nil ==> result0.Options != nil
 //@   ensures mapentry: result1 == nil && typeis(node.Field.Schema, *schema_j5pb.Field_Map) ==> result0.TypeName != nil && *result0.TypeName == mapEntry(*result0.Name)
 //@   assert at addMessage#0 entry: arg0 != nil && arg0.descriptor != nil && *arg0.descriptor.Name == mapEntry(snake(node.Schema.Name))
+
+// ---- other rule kinds (C12): the compiled buf.validate rule carries the declared rule unchanged ------
+//@ spec func strField(node sourcewalk.FieldNode) *schema_j5pb.StringField = as(*schema_j5pb.Field_String_, node.Schema).String_
+//@ spec func bytesField(node sourcewalk.FieldNode) *schema_j5pb.BytesField = as(*schema_j5pb.Field_Bytes, node.Schema).Bytes
+//@ spec func boolField(node sourcewalk.FieldNode) *schema_j5pb.BoolField = as(*schema_j5pb.Field_Bool, node.Schema).Bool
+//@ spec func keyField(node sourcewalk.FieldNode) *schema_j5pb.KeyField = as(*schema_j5pb.Field_Key, node.Schema).Key
+//@ spec func vstr(o *descriptorpb.FieldOptions) *validate.StringRules = as(*validate.FieldConstraints_String_, vrules(o).Type).String_
+//@ func buildField
+//@   ensures string.rules: result1 == nil && typeis(node.Schema, *schema_j5pb.Field_String_) && strField(node) != nil && strField(node).Rules != nil ==>
+//@   |   vrules(result0.Options) != nil && typeis(vrules(result0.Options).Type, *validate.FieldConstraints_String_) && vstr(result0.Options) != nil
+//@   |   && vstr(result0.Options).MinLen == strField(node).Rules.MinLength && vstr(result0.Options).MaxLen == strField(node).Rules.MaxLength && vstr(result0.Options).Pattern == strField(node).Rules.Pattern
+//@   ensures string.norules: result1 == nil && typeis(node.Schema, *schema_j5pb.Field_String_) && strField(node) != nil && strField(node).Rules == nil ==> !hasext(validate.E_Field, result0.Options)
+//@   ensures bytes.rules: result1 == nil && typeis(node.Schema, *schema_j5pb.Field_Bytes) && bytesField(node) != nil && bytesField(node).Rules != nil ==>
+//@   |   vrules(result0.Options) != nil && typeis(vrules(result0.Options).Type, *validate.FieldConstraints_Bytes) && as(*validate.FieldConstraints_Bytes, vrules(result0.Options).Type).Bytes != nil
+//@   |   && as(*validate.FieldConstraints_Bytes, vrules(result0.Options).Type).Bytes.MinLen == bytesField(node).Rules.MinLength && as(*validate.FieldConstraints_Bytes, vrules(result0.Options).Type).Bytes.MaxLen == bytesField(node).Rules.MaxLength
+//@   ensures bool.const: result1 == nil && typeis(node.Schema, *schema_j5pb.Field_Bool) && boolField(node) != nil && boolField(node).Rules != nil ==>
+//@   |   vrules(result0.Options) != nil && typeis(vrules(result0.Options).Type, *validate.FieldConstraints_Bool) && as(*validate.FieldConstraints_Bool, vrules(result0.Options).Type).Bool != nil
+//@   |   && as(*validate.FieldConstraints_Bool, vrules(result0.Options).Type).Bool.Const == boolField(node).Rules.Const
+//@   ensures key.uuid: result1 == nil && typeis(node.Schema, *schema_j5pb.Field_Key) && keyField(node) != nil && keyField(node).Format != nil && typeis(keyField(node).Format.Type, *schema_j5pb.KeyFormat_Uuid) ==>
+//@   |   vrules(result0.Options) != nil && typeis(vrules(result0.Options).Type, *validate.FieldConstraints_String_) && typeis(vstr(result0.Options).WellKnown, *validate.StringRules_Uuid) && as(*validate.StringRules_Uuid, vstr(result0.Options).WellKnown).Uuid
+//@   ensures key.id62: result1 == nil && typeis(node.Schema, *schema_j5pb.Field_Key) && keyField(node) != nil && keyField(node).Format != nil && typeis(keyField(node).Format.Type, *schema_j5pb.KeyFormat_Id62) ==>
+//@   |   vrules(result0.Options) != nil && typeis(vrules(result0.Options).Type, *validate.FieldConstraints_String_) && vstr(result0.Options).Pattern != nil && *vstr(result0.Options).Pattern == id62.PatternString
+//@   ensures key.custom: result1 == nil && typeis(node.Schema, *schema_j5pb.Field_Key) && keyField(node) != nil && keyField(node).Format != nil && typeis(keyField(node).Format.Type, *schema_j5pb.KeyFormat_Custom_) ==>
+//@   |   vrules(result0.Options) != nil && typeis(vrules(result0.Options).Type, *validate.FieldConstraints_String_) && vstr(result0.Options).Pattern != nil
+//@   |   && *vstr(result0.Options).Pattern == as(*schema_j5pb.KeyFormat_Custom_, keyField(node).Format.Type).Custom.Pattern
+//@   ensures enum.defined: result1 == nil && typeis(node.Schema, *schema_j5pb.Field_Enum) ==> vrules(result0.Options) != nil && typeis(vrules(result0.Options).Type, *validate.FieldConstraints_Enum)
+//@   |   && as(*validate.FieldConstraints_Enum, vrules(result0.Options).Type).Enum != nil && as(*validate.FieldConstraints_Enum, vrules(result0.Options).Type).Enum.DefinedOnly != nil && *as(*validate.FieldConstraints_Enum, vrules(result0.Options).Type).Enum.DefinedOnly
